@@ -221,8 +221,12 @@ pub struct FsState {
     pub plan: Vec<Fault>,
     pub hits: Vec<(usize, FaultKind, OpKind)>,
     pub cuts: Vec<Cut>,
+    /// files that disappeared in a crash because their directory entry was never synced: (path, content)
+    pub vanished: Vec<(String, Vec<u8>)>,
     pub next_write_fails: bool,
     pub tag: u64,
+    /// record separator (only used to describe what a crash cut lost)
+    pub sep: Option<u8>,
     order: Option<Rng>,
 }
 
@@ -281,6 +285,10 @@ impl FakeFs {
 
     pub fn add_fault(&self, f: Fault) {
         self.lock().plan.push(f);
+    }
+
+    pub fn set_sep(&self, sep: u8) {
+        self.lock().sep = Some(sep);
     }
 
     pub fn set_tag(&self, tag: u64) {
@@ -399,6 +407,7 @@ impl FakeFs {
                 };
                 if !survives {
                     st.files.remove(&path);
+                    st.vanished.push((path.clone(), node.content()));
                     continue;
                 }
             }
@@ -414,17 +423,23 @@ impl FakeFs {
             let full_len = node.len();
             let cut_at = node.synced.len() + keep;
             if keep < node.unsynced.len() {
-                let lost = node.unsynced[keep..].to_vec();
+                // The piece that spans the cut ended (before the crash) at the next separator at or
+                // after the cut, or at the end of the file. If that piece was itself cut short there
+                // (an older cut at that offset), the bytes that complete the record are the lost
+                // bytes up to that point plus what the older cut lost.
+                let x = node.content();
+                let end = match st.sep {
+                    Some(sep) => x[cut_at..].iter().position(|b| *b == sep).map(|p| cut_at + p).unwrap_or(full_len),
+                    None => full_len,
+                };
                 let older: Vec<Vec<u8>> =
-                    st.cuts.iter().filter(|c| c.path == path && c.offset == full_len).map(|c| c.rest.clone()).collect();
-                if older.is_empty() {
-                    st.cuts.push(Cut { path: path.clone(), offset: cut_at, rest: lost, why: "crash" });
-                } else {
-                    for o in older {
-                        let mut rest = lost.clone();
-                        rest.extend_from_slice(&o);
-                        st.cuts.push(Cut { path: path.clone(), offset: cut_at, rest, why: "crash" });
-                    }
+                    st.cuts.iter().filter(|c| c.path == path && c.offset == end).map(|c| c.rest.clone()).collect();
+                let upto = if end < full_len { end + 1 } else { end };
+                st.cuts.push(Cut { path: path.clone(), offset: cut_at, rest: x[cut_at..upto].to_vec(), why: "crash" });
+                for o in older {
+                    let mut rest = x[cut_at..end].to_vec();
+                    rest.extend_from_slice(&o);
+                    st.cuts.push(Cut { path: path.clone(), offset: cut_at, rest, why: "crash" });
                 }
             }
             let n = st.files.get_mut(&path).unwrap();
